@@ -170,7 +170,7 @@ func writeStable(sb *strings.Builder, v reflect.Value, depth int, seen map[stabl
 			}
 			writeStable(sb, key, depth+1, seen)
 			sb.WriteByte(':')
-			writeStable(sb, v.MapIndex(key), depth+1, seen)
+			writeStable(sb, mapValueOf(v, key), depth+1, seen)
 		}
 		sb.WriteByte(']')
 	case reflect.Func, reflect.Chan, reflect.UnsafePointer:
